@@ -5,6 +5,7 @@
       55 reshape / 56 view   (na = must_succeed :: inferred :: sizes)
       57 copy_ (ts = [dst; src]; na = same_dtype :: reused_storage :: ndim :: sizes ++ strides of dst.physical)
       58 to(dtype)           (na = [0] float, [1] bool)
+      59 __iter__            (result = the slices stacked along a new leading dimension)
     result tag: 0 value, 1 ZeroDivisionError, 2 RuntimeError, 3 any other exception. *)
 From Coq Require Import List Arith Lia PeanoNat Bool PArith QArith Qcanon.
 Import ListNotations.
@@ -79,6 +80,7 @@ Definition spec_op2 (op : nat) (na : list nat) (ts : list pt) (tgt : list pn * l
           end
       | 57 => match rest with src :: _ => OVal (shape xval src) (dspec src) | [] => OBad end
       | 58 => OVal shp (fun idx => cvt_of (nth 0 na 0) (D idx))
+      | 59 => match shp with [] => OBad | _ => OVal shp D end
       | _ => OBad
       end
   end.
@@ -104,6 +106,9 @@ Definition model_op2 (op : nat) (na : list nat) (ts : list pt) (tgt : list pn * 
       | 55 | 56 => r <- pt_reshape xval (nth 1 na 0) (skipn 2 na) next t ;; r' <- post_init xval (fst r) ;; dense_of r'
       | 57 => match rest with src :: _ => dense_of (fst (pt_copy xval next src)) | [] => Fail OtherError end
       | 58 => dense_of (pt_to xval (cvt_of (nth 0 na 0)) t)
+      | 59 => l <- pt_iter xval next t ;;
+              ds <- mapM (fun r => r' <- post_init xval r ;; dense_of r') l ;;
+              Ok (length l :: match ds with d :: _ => fst d | [] => tl (shape xval t) end, concat (map snd ds))
       | _ => Fail OtherError
       end
   end.
@@ -165,7 +170,7 @@ Definition in_group (ops : list nat) (x : nat * list nat * list wx * list wtenso
 Definition pt_check_select (x : nat * list nat * list wx * list wtensor * wresult) : nat :=
   if in_group [50; 51] x then pt_check2 x else 21.
 Definition pt_check_reduce (x : nat * list nat * list wx * list wtensor * wresult) : nat :=
-  if in_group [52; 53; 54] x then pt_check2 x else 21.
+  if in_group [52; 53; 54; 59] x then pt_check2 x else 21.
 Definition pt_check_reshape (x : nat * list nat * list wx * list wtensor * wresult) : nat :=
   if in_group [55; 56] x then pt_check2 x else 21.
 Definition pt_check_storage (x : nat * list nat * list wx * list wtensor * wresult) : nat :=
